@@ -314,13 +314,13 @@ inductive Body
   deriving DecidableEq, Repr
 
 /--
+  What happens to error `e` raised by a native call that sits under handler `i` of method `m`.
   `persistent = false`: only this one call fails; `true`: the *function* keeps failing
   (needed to see the Windows `ERROR_PARTIAL_COPY` retry loop give up).
 -/
-def body (cfg : Cfg) (p : Platform) (m : Method) (call : String) (e : Err) (env : Env)
-    (persistent : Bool) : Body :=
+def bodyWith (cfg : Cfg) (p : Platform) (i : Inner) (e : Err) (env : Env) (persistent : Bool) : Body :=
   let f := p.family
-  match inner cfg p m.name call with
+  match i with
   | .escapes => .leaves e
   | .absorbed => .settled .value
   | .absorbedIfPerm => if isPermissionErr cfg.win e then .settled .value else .leaves e
@@ -354,16 +354,69 @@ def body (cfg : Cfg) (p : Platform) (m : Method) (call : String) (e : Err) (env 
   | .handConverted => .settled (convertOserror cfg.win e env.pid)
   | .bare => .settled (.raw e)
 
-/-- Outcome seen by the caller, and the number of `time.sleep` calls of the Windows retry loop. -/
-def methodFault (cfg : Cfg) (p : Platform) (m : Method) (call : String) (e : Err) (env : Env)
-    (persistent : Bool) : Outcome × Nat :=
-  match body cfg p m call e env persistent with
+def body (cfg : Cfg) (p : Platform) (m : Method) (call : String) (e : Err) (env : Env)
+    (persistent : Bool) : Body :=
+  bodyWith cfg p (inner cfg p m.name call) e env persistent
+
+/-- the caller's view once the body is done with the error: the Windows retry decorator sits
+    between the body and wrap_exceptions -/
+def finish (cfg : Cfg) (p : Platform) (m : Method) (b : Body) (env : Env) (persistent : Bool) : Outcome × Nat :=
+  match b with
   | .settled o => (o, 0)
   | .leaves e' =>
-    -- the Windows retry decorator sits between the body and wrap_exceptions
     if m.retries && e'.winerror == some cfg.win.partialCopy then
       (if persistent then (.ad env.pid true, cfg.win.retryTimes) else (.value, 1))
     else (escape cfg p m e' env, 0)
+
+/-- Outcome seen by the caller, and the number of `time.sleep` calls of the Windows retry loop. -/
+def methodFault (cfg : Cfg) (p : Platform) (m : Method) (call : String) (e : Err) (env : Env)
+    (persistent : Bool) : Outcome × Nat :=
+  finish cfg p m (body cfg p m call e env persistent) env persistent
+
+/-! ## Two faulted native calls of one method
+
+  The first faulted call either ends the method (then a later fault never fires) or the method
+  goes on: an inner handler absorbed the error and the method continues on its alternative
+  path (`fallback`), or `retry_error_partial_copy` slept and runs the body again from the start
+  (`rerun`). A second call — at a later index of the *faulted* run's trace — then raises `e2`. -/
+
+inductive Mode | fallback | rerun
+  deriving DecidableEq, Repr
+
+inductive After
+  | ended (o : Outcome) (sleeps : Nat)
+  | goesOn (mode : Mode) (sleeps : Nat)
+  deriving DecidableEq, Repr
+
+def afterFirst (cfg : Cfg) (p : Platform) (m : Method) (call : String) (e : Err) (env : Env) : After :=
+  match body cfg p m call e env false with
+  | .settled .value => .goesOn .fallback 0
+  | .settled o => .ended o 0
+  | .leaves e' =>
+    if m.retries && e'.winerror == some cfg.win.partialCopy then .goesOn .rerun 1
+    else .ended (escape cfg p m e' env) 0
+
+/-- the handler the second call sits under when the method is on the alternative path that
+    absorbing the error of `call1` put it on. Only one place differs from `inner`: Windows
+    `cmdline()` repeats `proc_cmdline(use_peb=False)` *inside the except clause*, outside the `try`. -/
+def innerAfter (cfg : Cfg) (p : Platform) (meth call1 call2 : String) : Inner :=
+  if p == .windows && meth == "cmdline" && call1 == "proc_cmdline" && call2 == "proc_cmdline" then .escapes
+  else inner cfg p meth call2
+
+/-- the second fault, given how the method went on after the first -/
+def second (cfg : Cfg) (p : Platform) (m : Method) (mode : Mode) (call1 call2 : String) (e2 : Err) (env : Env) :
+    Outcome × Nat :=
+  match mode with
+  | .fallback => finish cfg p m (bodyWith cfg p (innerAfter cfg p m.name call1 call2) e2 env false) env false
+  | .rerun => methodFault cfg p m call2 e2 env false
+
+def methodFault2 (cfg : Cfg) (p : Platform) (m : Method) (call1 : String) (e1 : Err) (call2 : String) (e2 : Err)
+    (env : Env) : Outcome × Nat :=
+  match afterFirst cfg p m call1 e1 env with
+  | .ended o s => (o, s)
+  | .goesOn mode s =>
+    let r := second cfg p m mode call1 call2 e2 env
+    (r.1, s + r.2)
 
 /-! ## Record layout -/
 
